@@ -381,10 +381,12 @@ def install(lib, np_):
       return cx.new(TH.diagv(st.term) if st.term is not None else None, [z3.simplify(n)], st.kind, st.owner, base=(a.loc, st.version))
     raise Unsupported('np.diag on rank %d' % st.shape.rank)
 
-  @ext('numpy.finfo')
+  @ext('numpy.finfo', 'ASSUMED: .eps is the machine epsilon of the given float type (float64 for the python type float)')
   def _finfo(cx, dt):
-    return VOpaque('finfo')
-  lib.opaque_attr = {('finfo', 'eps'): lambda: VReal(TH.EPS)}
+    f = VOpaque('finfo')
+    f.of_term = getattr(dt, 'of_term', None)
+    return f
+  lib.opaque_attr = {('finfo', 'eps'): lambda base=None: VReal(TH.eps_of(base.of_term) if getattr(base, 'of_term', None) is not None else TH.EPS)}
 
   # ----------------------------------------------------------------------------------- linear algebra
   @ext('numpy.linalg.cholesky', 'ASSUMED: returns lower-triangular C with C C^T = a for symmetric positive definite a; LinAlgError otherwise')
